@@ -268,6 +268,7 @@ func cmdCheck(args []string) int {
 	noNative := fs.Bool("no-native", false, "skip native validation")
 	evOut := fs.String("evidence", "", "evidence file (default /verif/evidence/<prop>.json)")
 	workers := fs.Int("workers", runtime.NumCPU(), "workers")
+	maxPathsFlag := fs.Int("maxpaths", 0, "override per-harness path budget (debugging)")
 	fs.Parse(args)
 	if *tier == "" {
 		*tier = "quick"
@@ -347,6 +348,9 @@ func cmdCheck(args []string) int {
 		cfg := &RunConfig{Solver: *solverKind, TimeoutMs: opt("timeout_ms", 20000), MaxPaths: opt("maxpaths", 200000),
 			MaxSteps: int64(opt("maxsteps", 2000000)), MaxSplit: opt("maxsplit", 300), Workers: *workers, Tier: tierN,
 			AllocLimit: int64(opt("alloclimit", 1<<20)), Known: known, Verbose: *verbose}
+		if *maxPathsFlag > 0 {
+			cfg.MaxPaths = *maxPathsFlag
+		}
 		h := runHarness(prog, fn, cfg)
 		runs[hi.name] = h
 		he := harnessEvidence{Name: hi.name, Package: hi.pkgPath, Paths: h.paths, PathEnds: h.endCounts, Branches: h.branches,
